@@ -121,6 +121,20 @@ def tree_with_joins(n, rng):
     return es
 
 
+def wide_frontier(n, rng):
+    """0 -> {1, 2} -> every node 3..n-1: the frontiers of 1 and of 2 hold n-3
+    nodes each (large FRONTIER sets, which no other family makes: a join has
+    many predecessors elsewhere, here one node has many joins in its frontier);
+    a tail behind some joins lengthens the walks."""
+    if n < 5:
+        return [(i, i + 1) for i in range(n - 1)]
+    es = [(0, 1), (0, 2)] + [(1, j) for j in range(3, n)] + [(2, j) for j in range(3, n)]
+    for _ in range(rng.randrange(0, 3)):
+        a = rng.randrange(3, n)
+        es.append((a, rng.randrange(3, n)))
+    return es
+
+
 def dense(n, rng):
     """Random dense graph: spanning chain, every forward pair with probability
     p, every backward pair (self loops included) with probability q."""
@@ -166,6 +180,7 @@ FAMILIES = {
     "irreducible_ring": (irreducible_ring, 65),
     "ladder": (ladder, 65),
     "tree_with_joins": (tree_with_joins, 65),
+    "wide_frontier": (wide_frontier, 65),
     "dense": (dense, 24),
     "sparse": (sparse, 65),
 }
@@ -194,10 +209,10 @@ def parse(text):
     return n, [tuple(int(x) for x in e.split(">")) for e in t[1:]]
 
 
-def features(text, dom_field):
-    """Shape of an explored graph, from its input line and the `dom=` field of a
-    result: (n, max in-degree, self loops?, irreducible?, depth of the
-    dominator tree).  Irreducible: some retreating edge of a depth-first search
+def features(text, dom_field, df_field=""):
+    """Shape of an explored graph, from its input line and the `dom=` (and
+    `df=`) field of a result: (n, max in-degree, self loops?, irreducible?, depth
+    of the dominator tree, size of the largest frontier).  Irreducible: some retreating edge of a depth-first search
     whose target does not dominate its source."""
     n, es = parse(text)
     succ = [[] for _ in range(n)]
@@ -227,4 +242,5 @@ def features(text, dom_field):
             else:
                 state[a] = 2
                 stack.pop()
-    return n, max(indeg) if indeg else 0, selfloop, irreducible, depth
+    maxdf = max((len([x for x in f.split(",") if x]) for f in df_field.split("|")), default=0) if df_field else 0
+    return n, max(indeg) if indeg else 0, selfloop, irreducible, depth, maxdf
